@@ -18,6 +18,9 @@ ALPHABET = [
     # the transport fails for good and every later read reports the same error: a fatal TLS alert / bad
     # record (such histories run over wss://) and a routing failure (EHOSTUNREACH)
     "tls_error", "io_error",
+    # one binary message whose frame is exactly as long as the client's receive buffer (65536 bytes): a read that
+    # fills the buffer to the last byte, with nothing behind it
+    "binary_64k",
 ]
 ENDERS = ("eof", "reset", "silence", "tls_error", "io_error")
 FIRST_ONLY = ["refused"]
@@ -63,6 +66,7 @@ def step_to_script(name):
         "rsv_frame": B(wire.TEXT, b"x", rsv2=1),
         "bad_utf8": B(wire.TEXT, b"\xff\xfe"),
         "half_frame": B(wire.BINARY, b"0123456789")[:5],
+        "binary_64k": B(wire.BINARY, b"k" * (65536 - 4)),
     }
     if name in frames:
         return [["stream", [["bytes", frames[name]]], "whole", 0.0]]
@@ -188,8 +192,8 @@ def monitor(tr, silent_end=False, copts=None):
 class C07(Prop):
     id = "C07"
     level = "exploration"
-    rule = ("bounded exhaustive: every sequence of `depth` server steps over a 22-symbol alphabet (handshake variants, "
-            "data/control/invalid frames, close, half frame, silences, EOF, reset, a fatal TLS error or routing failure that every "
+    rule = ("bounded exhaustive: every sequence of `depth` server steps over a 23-symbol alphabet (handshake variants, "
+            "data/control/invalid frames, a frame exactly as long as the 64 KiB receive buffer, close, half frame, silences, EOF, reset, a fatal TLS error or routing failure that every "
             "later read repeats (wss://); connection refused as first step) x 9 "
             "application policies x 2 option sets, each ending in EOF; depth 3 in quick, 4 in thorough. Hypothesis: scripts of up "
             "to 40 steps with per-event reaction plans and random timer settings. Oracle: a monitor for the event grammar "
